@@ -72,3 +72,11 @@ META = {
     'C19': _m('input-enum', 'bounded-exhaustive (small-scope) input enumeration on the real codec against an independent CRC32C and wire-format walker', 'Every message of the grammar, with and without unknown fields (including a pre-existing field 2047), is marshalled by the real codec; framing, checksum value, payload identity, decodability by the codec and by plain proto.Unmarshal, and error pass-through are checked.', 'DESIGN.md 4/C19', 'Bounded message grammar as reported.'),
     'C20': _m('history-bfs', T_BFS, 'Address lists handed to every connection (creation, update, take-over) are tracked by the fake ClientConn and compared with the latest resolver result after every transition.', 'DESIGN.md 4/C20'),
 }
+
+# development-only entry: all pool concurrency drivers without race detection
+CHECKS['SCHED'] = pool('dev')
+
+CHECKS['C10'] = dict(module='grpcgcp', pkg='grpcgcp', harness='grpcgcp',
+                     instrument=[{'pkg': 'grpcgcp', 'vgrpc': 'gcp_multiendpoint.go', 'access': True}, {'pkg': 'grpcgcp/multiendpoint', 'access': True}], level='model_checking',
+                     workers={'quick': 16, 'thorough': 16}, deadline_s={'quick': 300, 'thorough': 1500},
+                     rule='every interleaving within the preemption bound of the concurrency drivers, each checked by a vector-clock race detector over all instrumented field/map accesses; non-trivial = distinct end states of executions with at least two threads')
